@@ -115,7 +115,7 @@ def _block_logdet(w, A):
             break
     if best is None:
         raise S.ShimUnsupported("block determinant: no usable pivot")
-    w.hints_used.append(f"GtvLemmas.det_fromBlocks{best[2]}")
+    w.hints_used.append(f"GtvLemmas.det_fromBlocks" + str(best[2]))
     return best[1]
 
 
@@ -205,7 +205,7 @@ def intern_matrix(w, A, want_inverse):
                 mm = dict(mb)
                 mm[rec["row"]], mm[rec["col"]] = row, col
                 inv = S.SymArr(A.axes, {(): K.rename_bound(K.subst(rec["Xexpr"], mm))}).fresh_copy()
-            w.hints_used.append("Matrix.det_nonsing_inv")
+            w.hints_used.append("GtvLemmas.det_inv_of_mul_eq_one")
             return inv, logdet.fresh_copy()
     # diagonal matrices (every monomial carries delta(row, col)): GtvLemmas.det_diagonal / inverse of a diagonal
     dg = _diagonal_entry(p, row, col)
